@@ -33,6 +33,7 @@ def run(tier):
         reps.append(deductive.verify_function(rel, q, c, hooks=OW.hooks_for(c), prefix='%s::%s[what runs, what is stored]' % (rel, q)))
     reps += OW.fg_frame_reports()
     reps.append(OW.schedule_report())
+    reps.append(OW.canonical_regions_report())
     for rel, q, c in OW.RG_PROJECT_ITEMS:
         reps.append(deductive.verify_function(rel, q, c, hooks=OW.project_hooks(c), prefix='%s::%s[in-clique answers]' % (rel, q)))
     from ..contracts import feas as FE
